@@ -261,6 +261,8 @@ func httpHandlerRule(c *Ctx, r *Rule, fn *ssa.Function, dispatchMethod string) {
 		if cl.Common().IsInvoke() && cl.Common().Method.Name() == dispatchMethod {
 			nd++
 			r.Check(key+":dispatch-only-after-success", readOK(cl.Block()) && unmarshalOK(cl.Block()), cl.Pos(), dispatchMethod+" is dominated by the success edges of readBody and proto.Unmarshal: a body that cannot be decoded dispatches nothing")
+			_, isCall := cl.(*ssa.Call)
+			r.Check(key+":dispatch-synchronous", isCall && fn.Parent() == nil, cl.Pos(), dispatchMethod+" runs synchronously inside the handler (the request's context is cancelled when the handler returns, and the status must follow the hand-over)")
 		}
 	}
 	r.Check(key+":dispatch-site", nd == 1, fn.Pos(), fmt.Sprintf("%d %s sites", nd, dispatchMethod))
